@@ -10,6 +10,9 @@ real state file) driven one model step at a time along schedules chosen by the e
   check_observed(...)   svdriver check: every differing observation per schedule + ghost facts of the model's own run
   oracle_C05/06/09/11   the properties' own oracles, written from the property texts, evaluated on the REAL traces
                         (they do not read the model's output)
+  wf_responses / oracle_C14   response well-formedness (C14: no success bit with an error, no failure without one except the plain
+                        refusals) on EVERY answered call of EVERY real trace, whichever property is under check (coverage
+                        response_wellformedness); the property oracle when C14 is under check
   trace_predicates(...) svdriver trace: the trace predicates of coq/Model/SvTrace.v (extracted Gallina, PROVED of every run of Msv:
                         Proofs/SvTraceP.v) evaluated on the REAL observations of every schedule, next to the Python oracles
   execute_windows(...)  WINDOW runs (harness/svsched/window.go): the inner yield points (every mutex acquisition / time.Timer call in
@@ -19,7 +22,7 @@ real state file) driven one model step at a time along schedules chosen by the e
                         a rejection outside the known-finding signatures means the oracle is wrong
   run_property(ctx, prop, tier=None)
 
-    python3 -m lib.svtie [--tier quick|thorough] [--prop C05,C06,C09,C11] [--seed N] [--scenario id,...] [--replay file.json]
+    python3 -m lib.svtie [--tier quick|thorough] [--prop C05,C06,C09,C11,C14] [--seed N] [--scenario id,...] [--replay file.json]
     (smoke run: builds, runs, prints a summary; VERIF_REPO selects the tree under test)
 """
 import json
@@ -47,7 +50,8 @@ MODEL_LABELS = ["VMgrTry", "VMgrLock", "VSessAdd", "VTmAdd", "VTmRemove", "VMgrU
 PROJ = {"C05": {"bit", "table", "timers", "crash", "hang", "fatal"},
         "C06": {"bit", "table", "timers", "sessions", "listing", "crash", "hang", "fatal"},
         "C09": {"bit", "file", "sessions", "crash", "hang", "fatal"},
-        "C11": {"bit", "err", "blocked", "file", "table", "shlabel", "crash", "hang", "fatal"}}
+        "C11": {"bit", "err", "blocked", "file", "table", "shlabel", "crash", "hang", "fatal"},
+        "C14": {"bit", "err", "crash", "hang", "fatal"}}
 KNOWN_OF = {"C06": "F-LEAK", "C09": "F-OVER"}
 
 T2SV_ASSUMPTIONS = [
@@ -500,6 +504,7 @@ class Run:
         self.sids = {}
         self.complete = False
         self.raw = []
+        self.model = False   # True: rendered from the MODEL's predicted observations (render_model), not a real trace
 
     def scenario(self):
         return self.sid.split("#")[0]
@@ -666,6 +671,7 @@ def render_model(runs):
     A model trace is complete when no thread is left parked at a yield point (corpus schedules may stop earlier; the real run is then
     completed by the harness, the model's is not)."""
     for r in runs.values():
+        r.model = True
         for _k, _tag, it in r.items:
             for tid, kind, a, b in it.get("spawn", []):
                 r.sys[tid] = (kind, a, b)
@@ -1404,7 +1410,83 @@ def oracle_C11(run, images=None):
     return bad
 
 
-ORACLES = {"C05": oracle_C05, "C06": oracle_C06, "C09": oracle_C09, "C11": oracle_C11}
+# ------------------------------------------------------------------------------------------- C14: response well-formedness
+
+WF_RULES = {
+    "flag-with-error": "locked / unlocked = true together with an error",
+    "grant-without-key": "locked = true and the server drew no (an empty) key for the call",
+    "failure-without-error": "Lock / Unlock answered false without an error",
+    "silent-renew-refusal": "Renew answered locked = false without an error while no expiry callback of that hold is in flight",
+}
+
+
+def wf_responses(run):
+    """C14's response clause, model independent, on every answered client call of one trace (real, or rendered from the model):
+         locked = true    =>  no error, and the call has a non-empty key (real traces: the key the server drew, `M key`)
+         unlocked = true  =>  no error
+         Lock, Unlock: false  =>  an error
+         TryLock: false without an error is the plain refusal
+         Renew: false without an error ONLY while the lease callback of that very hold has been started and has not returned
+                (timermap.Reset finds the entry of a timer that has fired: Proofs/SvWf.v C14_renew_silent_refusal_in_flight; the strict
+                clause is false of the model and of the code: C14_renew_strict_refuted)
+    -> (number of responses judged, [(item index, rule, text)], {kind of response: count})"""
+    bad, n, kinds = [], 0, {}
+    for tid, c in sorted(run.calls().items()):
+        if c["k_fin"] is None or c.get("op") not in ("try", "lock", "unl", "renew"):
+            continue
+        n += 1
+        ok, err, op = bool(c["ok"]), c["err"], c["op"]
+        has_err = err not in (None, "~", "")
+        kd = "%s:%s" % (op, "true" if ok and not has_err else ("true+error" if ok else ("error:" + str(err) if has_err else "false-without-error")))
+        kinds[kd] = kinds.get(kd, 0) + 1
+        flag = "unlocked" if op == "unl" else "locked"
+        who = "t%d's %s(%r,%r)" % (tid, {"try": "TryLock", "lock": "Lock", "unl": "Unlock", "renew": "Renew"}[op], c.get("name"), c.get("key"))
+        if ok and has_err:
+            bad.append((c["k_fin"], "flag-with-error", "%s answered %s=true together with the error %s" % (who, flag, err)))
+        elif ok:
+            if op in ("try", "lock") and not run.model and not run.keys.get(c["key"]):
+                bad.append((c["k_fin"], "grant-without-key", "%s answered locked=true and the server drew no key for it" % who))
+        elif not has_err:
+            if op == "try":
+                continue
+            if op == "renew":
+                pend = []
+                for b in (run.block_at(c["k_fin"]), run.block_at(c["k_fin"] - 1)):
+                    if b is not None:
+                        pend += _expiry_pending(run, b, c["name"], c["key"])
+                if not pend:
+                    bad.append((c["k_fin"], "silent-renew-refusal", "%s answered locked=false WITHOUT an error and no expiry callback of that hold is in flight "
+                                                                      "(started and not returned)" % who))
+                continue
+            bad.append((c["k_fin"], "failure-without-error", "%s answered %s=false without an error" % (who, flag)))
+    return n, bad, kinds
+
+
+def oracle_C14(run, images=None):
+    """Every response is well-formed (wf_responses). -> [(index, text, known_id|None)]"""
+    return [(k, "[%s] %s" % (rule, text), None) for (k, rule, text) in wf_responses(run)[1]]
+
+
+def new_wf():
+    return dict(traces=0, responses=0, failing_responses=0, failing_traces=0, by_rule={}, first=None, responses_by_kind={})
+
+
+def _wf_count(wf, sid, run):
+    n, bad, kinds = wf_responses(run)
+    wf["traces"] += 1
+    wf["responses"] += n
+    for k_, v_ in kinds.items():
+        wf["responses_by_kind"][k_] = wf["responses_by_kind"].get(k_, 0) + v_
+    if bad:
+        wf["failing_traces"] += 1
+        wf["failing_responses"] += len(bad)
+        for _k, rule, _t in bad:
+            wf["by_rule"][rule] = wf["by_rule"].get(rule, 0) + 1
+        if wf["first"] is None:
+            wf["first"] = "%s item %d: %s" % (sid, bad[0][0], bad[0][2][:300])
+
+
+ORACLES = {"C05": oracle_C05, "C06": oracle_C06, "C09": oracle_C09, "C11": oracle_C11, "C14": oracle_C14}
 
 
 # --------------------------------------------------------------------------------------------------- run_property
@@ -1453,7 +1535,7 @@ def new_tps():
                 python_oracle_and_predicate_failed=0, predicate_failed_only=0, known_finding_shaped=0)
 
 
-def judge(prop, runs, chk, failures, images, compare=True, tp=None, tps=None, tp_prefix=""):
+def judge(prop, runs, chk, failures, images, compare=True, tp=None, tps=None, tp_prefix="", wf=None):
     """-> dict(violations=[(sid, idx, text)], known=[(sid, fid, text)], mismatches=[(sid, k, kind, text)], label_only=n, tp=statistics of the
     extracted Coq trace predicates). tp: trace_predicates(...) keyed by the schedule id as the harness wrote it (tp_prefix + that id = key of
     `runs`). A predicate of `prop` that is false on a REAL trace is a violation of `prop` like a failure of the Python oracle; the two
@@ -1463,9 +1545,11 @@ def judge(prop, runs, chk, failures, images, compare=True, tp=None, tps=None, tp
     viol, known, mism = [], [], []
     label_only = 0
     tps = tps if tps is not None else new_tps()
+    wf = wf if wf is not None else new_wf()
     for sid, run in sorted(runs.items()):
         c = chk.get(sid, {})
         py_fail = False
+        _wf_count(wf, sid, run)      # C14's response clause on every real trace, whatever `prop` is (reported when prop is C14: oracle_C14)
         n_before = len(viol)
         for idx, text, fid in oracle(run, images):
             if fid is not None and fid == KNOWN_OF.get(prop):
@@ -1504,15 +1588,16 @@ def judge(prop, runs, chk, failures, images, compare=True, tp=None, tps=None, tp
     if compare:
         for f in failures:
             mism.append((f["sid"], f["k"], f["kind"], f["text"][-600:]))
-    return dict(violations=viol, known=known, mismatches=mism, label_only=label_only, tp=tps)
+    return dict(violations=viol, known=known, mismatches=mism, label_only=label_only, tp=tps, wf=wf)
 
 
 def _fname(sid):
     return re.sub(r"[^A-Za-z0-9_.-]", "_", sid)
 
 
-def run_property(ctx, prop, tier=None, scenarios=None, procs=8):
-    """The whole T2 layer-2 stage for one property; records violations / known findings / coverage on ctx."""
+def run_property(ctx, prop, tier=None, scenarios=None, procs=8, corpus_props=None):
+    """The whole T2 layer-2 stage for one property; records violations / known findings / coverage on ctx.
+    corpus_props: the corpus schedules tagged with any of these properties are run as well (default: those of `prop`)."""
     tier = tier or ctx.tier
     tie = ctx.coverage["ties"].setdefault("T2-svsched", {})
     b = build(ctx)
@@ -1543,7 +1628,8 @@ def run_property(ctx, prop, tier=None, scenarios=None, procs=8):
             reached[k] = reached.get(k, 0) + v
 
     # corpus first
-    corpus = [c for c in corpus_schedules() if not c.get("props") or prop in c["props"]]
+    cprops = set(corpus_props or [prop]) | {prop}
+    corpus = [c for c in corpus_schedules() if not c.get("props") or cprops & set(c["props"])]
     cf = None
     if corpus:
         cf, clog = expand(ctx, b, corpus, "corpus-%s" % prop)
@@ -1562,7 +1648,8 @@ def run_property(ctx, prop, tier=None, scenarios=None, procs=8):
     cq_dirs += e["dirs"]
     abandoned = e.get("abandoned", 0)
     tps = new_tps()
-    j = judge(prop, runs, chk, failures, images, tp=tp, tps=tps)
+    wf = new_wf()
+    j = judge(prop, runs, chk, failures, images, tp=tp, tps=tps, wf=wf)
 
     # exhibit runs (oracles only; the schedule is then not the model's):
     #  - sentinel yield points inside timermap.Reset were placed (its critical section is split): park there
@@ -1585,7 +1672,7 @@ def run_property(ctx, prop, tier=None, scenarios=None, procs=8):
             xt.update({"%s:%s" % (tag, k): v for k, v in e2.get("tp", {}).items()})
             xi.update(e2["images"])
         n_exhibit += len(xr)
-        j2 = judge(prop, xr, xc, [], xi, compare=False, tp=xt, tps=tps)
+        j2 = judge(prop, xr, xc, [], xi, compare=False, tp=xt, tps=tps, wf=wf)
         j["violations"] += j2["violations"]
         j["known"] += j2["known"]
         runs.update(xr)
@@ -1602,7 +1689,7 @@ def run_property(ctx, prop, tier=None, scenarios=None, procs=8):
             wr[v.sid] = v
         n_window = len(wr)
         wstats, wfail = ew["stats"], ew["failures"]
-        j3 = judge(prop, wr, {}, [], ew["images"], compare=False)
+        j3 = judge(prop, wr, {}, [], ew["images"], compare=False, wf=wf)
         j["violations"] += j3["violations"]
         j["known"] += j3["known"]
         runs.update(wr)
@@ -1619,6 +1706,15 @@ def run_property(ctx, prop, tier=None, scenarios=None, procs=8):
     tie["window_runs"] = {"executions": n_window, "per_scenario": wstats, "hangs_or_fatal": len(wfail),
                           "first_failure": (wfail[0]["sid"] + ": " + wfail[0]["text"][-300:]) if wfail else None}
 
+    # C14's response clause was evaluated on every real trace above (comparison, corpus, exhibit and window runs)
+    tie["response_wellformedness"] = dict(wf, reported_here=(prop == "C14"), rules=WF_RULES,
+                                          rule="every answered TryLock / Lock / Unlock / Renew of every real trace: true => no error (and a key for a grant); "
+                                               "Lock / Unlock false => an error; TryLock false without error = refusal; Renew false without error only while the "
+                                               "expiry callback of that hold is in flight (Proofs/SvWf.v)")
+    if wf["failing_responses"] and prop != "C14":
+        ctx.note("T2-svsched: %d response(s) of %d real trace(s) are not well-formed (C14's clause; reported by bin/check C14): %s"
+                 % (wf["failing_responses"], wf["failing_traces"], wf["first"]))
+
     # oracle self-test on the model's own predicted observations of the same schedules (corpus + generated)
     try:
         stt = selftest_oracle(prop, [cf, sf])
@@ -1632,8 +1728,8 @@ def run_property(ctx, prop, tier=None, scenarios=None, procs=8):
                        "rejected_model_traces": len(set(x[0] for x in stt["failures"])), "model_traces_judged": stt["judged"],
                        "items": [dec_item(it["raw"].split()) for _k, _t, it in mrun.items] if mrun is not None else [],
                        "noclear": mrun.noclear if mrun is not None else None, "model_trace": mrun.raw[:600] if mrun is not None else [],
-                       "why": "Msv is proved to satisfy %s on every schedule (Proofs/SvAll.v) outside the recorded findings: the oracle or its rendering of the "
-                              "model trace is wrong; nothing may be concluded from this run" % prop},
+                       "why": "Msv is proved to satisfy %s on every schedule (Proofs/%s) outside the recorded findings: the oracle or its rendering of the "
+                              "model trace is wrong; nothing may be concluded from this run" % (prop, "SvWf.v" if prop == "C14" else "SvAll.v")},
                       "oracle self-test: the Python oracle of %s rejects a trace of the proved model (schedule %s item %d: %s)" % (prop, sid, idx, text[:300]),
                       name="t2sv_oracle_selftest_%s.json" % _fname(sid), no_failing_input=True)
 
@@ -1794,6 +1890,8 @@ def main(argv=None):
                  tie["mismatches_in_projection"], tie["schedules_differing_outside_projection"], tie["schedules_failing_oracle"], tie["known_finding_reproductions"],
                  tie["hangs_or_fatal"], tie["model_labels_never_reached"], tie["yield_points_missing"], tie["sentinels_placed"]))
         print("    oracle self-test on the model's traces: %s" % json.dumps(tie.get("oracle_selftest")))
+        print("    response well-formedness (C14's clause) on the real traces: %s"
+              % json.dumps({k_: v_ for k_, v_ in tie.get("response_wellformedness", {}).items() if k_ not in ("rule", "rules")}))
         wr_ = tie.get("window_runs", {})
         print("    window runs: %d executions over %d scenarios (%d not exhausted), hangs/fatal %d; inner yield points per file: %s"
               % (wr_.get("executions", 0), len(wr_.get("per_scenario", {})), sum(1 for v in wr_.get("per_scenario", {}).values() if not v["exhausted"]),
